@@ -25,7 +25,8 @@
    exactly the steps of the models (recover() around every call, a deadline per call, goroutine
    stacks / /proc/self/fd / Stats() / directory listing after every batch).  The model has no
    notion of how LONG a terminating handler runs: GetTree's recursion over stored Directories is
-   outside the proved part and is where the harness found unbounded work (see the report). *)
+   outside the proved part and is where the harness found unbounded work (fixed in /repo,
+   1e7ba8a: ancestor set + context check; kept as regression probes). *)
 From BR Require Import Base.Prelude Gen.Consts Gen.Panics Model.PanicSites Bridge.Bridge_Panics
   Model.Casblob Proofs.Casblob_header Proofs.Casblob_nopanic
   Model.ActionResult Proofs.ActionResult_validate Proofs.ActionResult_store
